@@ -107,11 +107,14 @@ def searchFirst {β : Type} (f : β → Bool) : List β → Nat
   | x :: xs => if f x then 0 else searchFirst f xs + 1
 
 /-- merge_refine.go:116-137: the lookups exist iff the first sorting column has pages, an offset
-    index of the same length and no null page -/
-def hasCuts (t : Target) : Bool :=
+    index of the same length and no null page. `strict = false` is the code as it is (only pages that
+    are entirely null are refused); `strict = true` also refuses pages that hold some nulls
+    (proposed_fixes/C09_cut_lookups_nulls.diff). -/
+def hasCuts (strict : Bool) (t : Target) : Bool :=
   match t.cols with
   | [] => false
-  | pages :: _ => !pages.isEmpty && pages.length == t.firstRows.length && !pages.any (·.nullPage)
+  | pages :: _ => !pages.isEmpty && pages.length == t.firstRows.length &&
+      !pages.any (fun p => p.nullPage || (strict && p.hasNulls))
 
 def pageEnd (t : Target) (p : Nat) : Nat :=
   if p + 1 < t.firstRows.length then t.firstRows.getD (p + 1) 0 else t.numRows
@@ -194,24 +197,24 @@ def sliceLone (s : St) (i off e : Nat) : St :=
                         cursors := (closeRegion s2).cursors.set i e, sliced := true }
 
 /-- merge_refine.go:291-327 -/
-def resolveLone (desc : Bool) (ts : List RG) (s : St) (rightK : Option KeyRow) : St :=
+def resolveLone (strict desc : Bool) (ts : List RG) (s : St) (rightK : Option KeyRow) : St :=
   match s.pendingLone with
   | none => s
   | some i =>
-    if !hasCuts (ts.getD i default).t then { s with pendingLone := none }
+    if !hasCuts strict (ts.getD i default).t then { s with pendingLone := none }
     else if loneEnd desc (ts.getD i default).t rightK <
         loneOff desc (ts.getD i default).t s i + minStreamedRegionRows then { s with pendingLone := none }
     else sliceLone { s with pendingLone := none } i (loneOff desc (ts.getD i default).t s i)
       (loneEnd desc (ts.getD i default).t rightK)
 
 /-- merge_refine.go:329-358: one event of the sweep -/
-def stepEvent (desc : Bool) (ts : List RG) (s : St) (ev : Event) : St :=
+def stepEvent (strict desc : Bool) (ts : List RG) (s : St) (ev : Event) : St :=
   if ev.start then
-    let s := if s.pendingLone.isSome then resolveLone desc ts s (some ev.key) else s
+    let s := if s.pendingLone.isSome then resolveLone strict desc ts s (some ev.key) else s
     let s := { s with active := s.active ++ [ev.index] }
     if s.active.length = 1 then { s with pendingLone := some ev.index, pendingLeftK := none } else s
   else
-    let s := if s.pendingLone = some ev.index then resolveLone desc ts s none else s
+    let s := if s.pendingLone = some ev.index then resolveLone strict desc ts s none else s
     let s := { s with active := s.active.erase ev.index }
     let s := remainder ts s ev.index
     if s.active.length = 1 && s.pendingLone.isNone then
@@ -229,16 +232,16 @@ def St.init (n : Nat) : St :=
     pendingLone := none, pendingLeftK := none }
 
 /-- merge_refine.go:200-365: `none` = no refinement applies -/
-def refineSegment (specs : List ColSpec) (ts : List RG) : Option (List (List Part)) :=
+def refineSegment (strict : Bool) (specs : List ColSpec) (ts : List RG) : Option (List (List Part)) :=
   if ts.length < 2 then none else
   let desc := (specs.getD 0 { desc := false, nullsFirst := false }).desc
   let events := sortBy (eventLt (cmpRows specs)) (eventsOf ts)
-  let s := closeRegion (events.foldl (stepEvent desc ts) (St.init ts.length))
+  let s := closeRegion (events.foldl (stepEvent strict desc ts) (St.init ts.length))
   if s.sliced then some s.plan else none
 
 /-- merge.go:96-119: the plan of `MergeRowGroups` without duplicate dropping: for every final
     segment the number of row groups it merges and its number of rows -/
-def planOf (specs : List ColSpec) (ts : List Target) : List (Nat × Nat) :=
+def planOf (strict : Bool) (specs : List ColSpec) (ts : List Target) : List (Nat × Nat) :=
   match segmentsOf specs ts with
   | none => [(ts.length, (ts.map (·.numRows)).sum)]
   | some segs =>
@@ -246,7 +249,7 @@ def planOf (specs : List ColSpec) (ts : List Target) : List (Nat × Nat) :=
       match seg with
       | [r] => [(1, r.t.numRows)]
       | _ =>
-        match refineSegment specs seg with
+        match refineSegment strict specs seg with
         | some plan => plan.map (fun parts => (parts.length, (parts.map (·.len)).sum))
         | none => [(seg.length, (seg.map (·.t.numRows)).sum)])
 
